@@ -165,6 +165,12 @@ impl PreparationError {
 //@ spec
         ensures r is EnvelopeDeFailedWithVersions
 //@ end
+//@ lift air/src/preparation_step/errors.rs :: impl PreparationError :: fn unsupported_interpreter_version
+//@ props C21
+//@ ret r
+//@ spec
+        ensures r == (PreparationError::UnsupportedInterpreterVersion { actual_version, required_version })
+//@ end
 }
 
 // ---------------------------------------------------------------- specs
